@@ -289,7 +289,10 @@ class _FpLike:
         return np.interp(np.asarray(m, dtype=float), self._xs, self._ys, left=float(np.nanmin(self._ys)), right=float(np.nanmax(self._ys)))
 
 
-def repo_test_traces(ctx: core.Ctx, owner: str, tests: list[str], want_resid: bool) -> dict:
+NOTEBOOKS = ["docs/getting_started.ipynb", "docs/flow.ipynb", "docs/forecast.ipynb", "docs/oil_flow.ipynb"]
+
+
+def repo_test_traces(ctx: core.Ctx, owner: str, tests: list[str], want_resid: bool, module: str = "bbv.drivers.repotests") -> dict:
     """Run the named repository tests in a fresh interpreter with the reservoir classes wrapped, and validate every
     simulation they perform (levels, recovery series) with SchemeTrace.tla.  Returns a summary."""
     import pickle  # noqa: PLC0415
@@ -301,7 +304,7 @@ def repo_test_traces(ctx: core.Ctx, owner: str, tests: list[str], want_resid: bo
     sdir = env.scratch("repotests")
     try:
         out = sdir / "records.pkl"
-        p = subprocess.run([sys.executable, "-m", "bbv.drivers.repotests", str(out), *tests], cwd=env.VERIF,
+        p = subprocess.run([sys.executable, "-m", module, str(out), *tests], cwd=env.VERIF,
                            capture_output=True, text=True, timeout=1500, check=False)
         if not out.exists():
             raise tlc.MachineryError(f"recording the repository's tests failed:\n{p.stdout[-1500:]}\n{p.stderr[-1500:]}")
@@ -358,5 +361,5 @@ def repo_test_traces(ctx: core.Ctx, owner: str, tests: list[str], want_resid: bo
         where = f"level {e['i']}" if e["ev"] == "Level" else e["ev"] + " " + str(e.get("mode", ""))
         ctx.violation(cl, f"{where} (first of {ent['count']} events) of simulation {raws[tid]['cfg']} performed by the repository's own "
                       f"tests {tests} violates {cl}", replay={"stage": "repotests", "tests": tests, "clause": cl})
-    return {"tests": tests, "pytest_rc": data["pytest_rc"], "simulations": len(data["records"]),
+    return {"tests": tests, "pytest_rc": data["pytest_rc"], "simulations": len(data["records"]), "status": data.get("status"),
             "worst_backward_error": max((r["worst_backward_error"] for r in raws.values()), default=0.0)}
